@@ -51,6 +51,15 @@ class RawPy:
         return True
 
 
+def neighbour(g, k):
+    """every 4th program has a NEIGHBOUR package whose own group uses the same instance names (//nb:e1 and //:e1 are different
+    tasks); d1 depends on it, so both groups are loaded by one invocation whenever the group under test depends on d1"""
+    if k % 4 != 3:
+        return None
+    names = sorted({i["name"] for i in g["insts"]}) or ["e1"]
+    return names
+
+
 def group_source(g, k):
     insts = []
     for i in g["insts"]:
@@ -66,7 +75,8 @@ def group_source(g, k):
         if i["par"] or k % 2 == 0:
             parts.append("parallelizable=%r" % bool(i["par"]))
         insts.append("ExperimentInstance(%s)" % ", ".join(parts))
-    src = "run_command(name='d1', run='true')\nrun_command(name='d2', run='true')\n"
+    src = "run_command(name='d1', run='true'%s)\nrun_command(name='d2', run='true')\n" % (
+        ", deps=['//nb:nbg']" if neighbour(g, k) else "")
     # `experiments` is any Iterable[ExperimentInstance]: a list, a tuple, or a one-shot iterable (generator, iter(...), map)
     lst = "[%s]" % ", ".join(insts)
     container = [lst, "tuple(%s)" % lst, "(e for e in %s)" % lst, "iter(%s)" % lst, lst, "map(lambda e: e, %s)" % lst][(k // 2) % 6]
@@ -82,9 +92,12 @@ def group_source(g, k):
 RUN_SUFFIX = ["", "", " ", "", "  "]
 
 
-def explicit_tasks(expansion, k=0):
-    tasks = [{"pkg": "", "name": "d1", "kind": "run_command", "deps": [], "run": "true"},
+def explicit_tasks(expansion, k=0, nb=None):
+    tasks = [{"pkg": "", "name": "d1", "kind": "run_command", "deps": ["//nb:nbg"] if nb else [], "run": "true"},
              {"pkg": "", "name": "d2", "kind": "run_command", "deps": [], "run": "true"}]
+    if nb:
+        tasks += [{"pkg": "nb", "name": n, "kind": "run_experiment", "deps": [], "run": "true"} for n in nb]
+        tasks.append({"pkg": "nb", "name": "nbg", "kind": "combine", "deps": [":%s" % n for n in nb]})
     for d in expansion:
         if d["ctor"] == "run_experiment":
             tasks.append({"pkg": "", "name": d["name"], "kind": "run_experiment", "deps": list(d["deps"]),
@@ -122,11 +135,15 @@ def pair_worker(job):
     inst, k = job
     d = tempfile.mkdtemp(prefix="cvc19_", dir=C.scratch_root())
     try:
-        tasks = explicit_tasks(inst["expansion"], k)
+        nb = neighbour(inst["g"], k)
+        tasks = explicit_tasks(inst["expansion"], k, nb)
         projE = {"config": "disable_git = true\n", "tasks": tasks}
         rootE, rootG = os.path.join(d, "e"), os.path.join(d, "g")
         P.write_project(rootE, projE)
-        P.write_project(rootG, {"config": "disable_git = true\n", "tasks": [], "raw_cond": {"": group_source(inst["g"], k)}})
+        raw = {"": group_source(inst["g"], k)}
+        if nb:
+            raw["nb"] = "run_experiment_group(name='nbg', run='true', experiments=[ExperimentInstance(name=n) for n in %r])\n" % nb
+        P.write_project(rootG, {"config": "disable_git = true\n", "tasks": [], "raw_cond": raw})
         gE, gG = graph_dump(rootE), graph_dump(rootG)
         res = {"gE": gE, "gG": gG, "k": k}
         if gE["rejected"] is None and gG["rejected"] is None:
